@@ -81,7 +81,7 @@ def run(tier, seed):
              'quotes, backslashes, blanks, line breaks, non-ASCII and astral characters; for each, 4 respellings drawn from the '
              'rewrite rules (white space / comments around combinators, commas, inside brackets and parentheses and at both ends; '
              'each character literal, backslash-escaped, or hex-escaped with 1-6 digits in either case; single / double quotes / '
-             'bare identifier; case of pseudo-class names, even/odd/n/of, ltr/rtl, i/s): structures must be equal to the canonical '
+             'bare identifier; line continuations (backslash + LF / CR LF / CR / FF) anywhere inside a quoted value, also right before the closing quote; case of pseudo-class names, even/odd/n/of, ltr/rtl, i/s): structures must be equal to the canonical '
              'spelling\'s; canonical and respelled patterns also go through the model parser. class = which rewrite kinds occur.',
         assumptions=['white space where CSS forbids it (between ":" and a name, inside An+B before n) is not generated'])
 
